@@ -47,7 +47,7 @@ CLAIMED = {
  "C08": dict(text="Theorems: the shift theorem (any field with a primitive root); the pseudo-spectral products (quadratic and cubic, any D, N, band) commute with every character twist "
                   "(chi(m) chi(wrap(k-m)) = chi(k)), hence so do the nonlinear terms (proved for both single-channel convection forms and the gradient norm; the other terms are the same combinators); "
                   "every ETDRK order 0-4 (stage programs translated from the source) commutes with any mode-wise multiplier the nonlinear term commutes with - for ALL states; the generic symbol is "
-                  "permutation invariant and reduces to the 1-D symbol with a_0 -> D a_0 on states constant along the other axes (D <= 3).",
+                  "permutation invariant and reduces to the 1-D symbol with a_0 -> D a_0 on states constant along the other axes (D <= 3). Permutation equivariance is also proved for the single-channel terms as regenerated from the source (harness/translate/nonlin.py).",
              note="Translation equivariance of all 36 classes, axis permutations (vector channels permuted along, vorticity pseudo-scalar sign, Nyquist-free states for odd-order symbols on even grids) and "
                   "1-D embedding along every axis are checked on the real code (incl. N = 32 where the dealiasing cutoff is fractional and odd N); permutation equivariance of the pseudo-spectral product and of the scalar isotropic terms (single-channel convection, gradient norm) is now proved for every axis "
                   "permutation and every D; and for the multi-channel convection (both forms, channels permuted along with the axes).",
@@ -63,7 +63,7 @@ CLAIMED = {
  "C11": dict(text="Theorems (complex numbers over any ordered field; the order laws are premises, satisfiable over Q): for real coefficients and real wavenumbers in any dimension the advection / "
                   "dispersion symbols are purely imaginary, the order-2 / order-4 Laplace symbols are -sum kappa^2 / +sum kappa^4 (real), so diffusion and hyper-diffusion with non-negative "
                   "coefficients have non-positive real part; a mode multiplied by E with |E|^2 <= 1 does not grow (equality for |E|^2 = 1); the Parseval-weighted sum over all modes is monotone; the "
-                  "real inverse transform contracts (|Re c| <= |c|); the wave stepper conserves |v|^2 + (c rho)^2 |h|^2 per mode. Symbols tied to the code by exact correspondence at every stored mode.",
+                  "real inverse transform contracts (|Re c| <= |c|); the wave stepper conserves |v|^2 + (c rho)^2 |h|^2 per mode. Symbols tied to the code by exact correspondence at every stored mode. The real-part statements are also proved for the symbols as regenerated from the source (Advection, Dispersion, HyperDiffusion, scalar Diffusion; harness/translate/linops.py).",
              note="|exp z| = exp(Re z) is used, not proved; the end-to-end statement (mode factors of modulus <= 1 on the stored half spectrum of a real field => the discrete L2 norm does not grow, = 1 => preserved) is proved in every dimension with Parseval on the stored half spectrum (Steppers/L2Stability.v); full-matrix diffusion sign (kappa^T A kappa >= 0 for SPD A) is checked on the real code "
                   "(white noise, strong off-diagonals, dt up to 1e6, every single mode), as are exact norm / wave-energy preservation.",
              technique="Rocq proof (ordered-field reasoning on sums, complex modulus algebra) + exact symbol correspondence + norm oracle on the real code", design="§4 C11"),
@@ -84,7 +84,7 @@ CLAIMED = {
              technique="Rocq proof (field identities, formal reality, polynomial exactness of the contour rule) on AST-translated coefficients + two-precision runtime check", design="§4 C19"),
  "C09": dict(text="Theorems (any field, any D, any state): the mean is the zero mode of the transform; every conservation-form linear symbol vanishes at the mean mode; the mean-mode coefficient of "
                   "conservative convection (multi- and single-channel), mean-fixed gradient norm and Cahn-Hilliard vanishes for every input; hence every ETDRK order 0-4 (stage programs translated "
-                  "from the source) leaves the mean unchanged; every constant equilibrium (lambda u + N(u) = 0) is a fixed point of ETD1/ETD2RK/ETD3RK/ETD4RK for every h.",
+                  "from the source) leaves the mean unchanged; every constant equilibrium (lambda u + N(u) = 0) is a fixed point of ETD1/ETD2RK/ETD3RK/ETD4RK for every h. Zero mean is also proved for the nonlinear terms as regenerated from the source (single-channel convection, gradient norm, 2D vorticity convection; harness/translate/nonlin.py). The single-channel convection as regenerated from the source is also proved to do no work on its own band-limited state.",
              note="PARTIAL: also proved (antisymmetry of the dealiased convolution sums under m -> -m, any field of characteristic 0, 2K < N): zero mean of the non-conservative single-channel and 1D "
                   "default convection and of the 2D vorticity convection for every state, and of the Leray-projected 3D rotational form on divergence-free states. Work: with the dealiased products and 3K < N the "
                   "single-channel Burgers-type convection (both forms) does no work on its state and the 2D vorticity convection none against vorticity (enstrophy) or stream function (energy), "
@@ -94,7 +94,7 @@ CLAIMED = {
                   "- the transforms of the documented -k(2pi/L)gamma cos and gamma sin (transform of a real harmonic proved from a primitive root); the 2D convection term vanishes identically on "
                   "the laminar subspace; on it every ETD tableau is u' = E u + h phi1 f and n steps from rest give f (E^n - 1)/lambda; ForcedStepper laws. Injection arrays compared element-wise "
                   "(exact rationals) for all admissible modes, N parity, several L; the constructors of the two Kolmogorov nonlinear functions are executed symbolically on every run "
-                  "(harness/translate/spectral.py) and the resulting arrays proved equal to the injection model at every stored index.",
+                  "(harness/translate/spectral.py) and the resulting arrays proved equal to the injection model at every stored index. On the laminar subspace the source text of both Kolmogorov nonlinear functions (harness/translate/nonlin.py) is proved to return exactly its forcing array.",
              note="The 3D laminar subspace is now proved as well (u x curl u = grad(u_0^2/2) on states (u_0(x_1),0,0), removed by the Leray projection, mean by antisymmetry); laminar solutions of both Kolmogorov steppers and the generic vorticity stepper are checked "
                   "against the closed form on the real code for orders 1-4, L != 2 pi, modes above the dealiasing cutoff.",
              technique="Rocq proof (case analysis on the masks, tableau algebra, induction on n) + exact correspondence of the injection arrays", design="§4 C12"),
@@ -111,9 +111,10 @@ CLAIMED = {
                   "divergence-free fields and is the identity at the mean mode; make_incompressible equals it at every mode (premise: Laplace symbol vanishes only where d = 0, proved for real "
                   "wavenumbers over a formally real field, hence independent of L); every ETDRK order 0-4 (stage programs translated from the source) maps divergence-free states to divergence-free "
                   "states when the nonlinear term is divergence free and the coefficient arrays are channel-independent. Leray / make_incompressible compared with the extracted model at every stored mode; "
-                  "the per-mode arithmetic of make_incompressible is re-translated from the source on every run (harness/translate/linops.py) and proved equal to the model, hence divergence free.",
-             note="That ProjectedConvection3d(Kolmogorov) is divergence free for every input follows from its last operation being the Leray projection (model Nonlin/Terms.v, tied by the C03 correspondence) "
-                  "and is checked on the real code with white noise, as is preservation over rollouts for several L (incl. L = 20).",
+                  "the per-mode arithmetic of make_incompressible is re-translated from the source on every run (harness/translate/linops.py) and proved equal to the model, hence divergence free; "
+                  "the source text of ProjectedConvection3d (harness/translate/nonlin.py) is proved to return a divergence-free field for every input.",
+             note="That ProjectedConvection3d is divergence free for every input is now a theorem about the regenerated source text; for the Kolmogorov variant (projection, then the forcing array, which is divergence free by C12) it "
+                  "is checked on the real code with white noise, as is preservation over rollouts for several L (incl. L = 20).",
              technique="Rocq proof (field identities per mode, linearity of the stage programs) + exact-rational correspondence", design="§4 C10"),
  "C03": dict(text="Theorems for every D, N, state and field of characteristic 0: the dealiasing cutoffs satisfy 3K<N (2/3 rule) and 4K<N (1/2 rule) for all N; with (q+2)K<N the pseudo-spectral "
                   "product (circular convolution on the N-grid) equals the alias-free product on the retained band and vanishes outside it (index argument, any dimension); hence each built-in "
@@ -151,7 +152,7 @@ CLAIMED = {
                   "the real _build_linear_operator of every class at every stored mode in exact rational arithmetic. The super().__init__ chains of all Normalized* / Difficulty* constructors are "
                   "re-translated from the source on every run (harness/translate/wiring.py, closed over stepper/generic) and proved to be: Normalized = General on the unit domain with unit step, "
                   "Difficulty = Normalized after the extract_* conversion, simple difficulty = `order` zeros then the value; `_build_nonlinear_fun` of every stepper class is re-translated as well "
-                  "(harness/translate/buildnl.py) and each specific stepper proved to build the same nonlinear-function configuration as its generic counterpart.",
+                  "(harness/translate/buildnl.py) and each specific stepper proved to build the same nonlinear-function configuration as its generic counterpart. The normalisation of the nonlinear scales (b -> b s, b s^2) is also proved for the terms as regenerated from the source.",
              note="The scaling of the built-in single-channel convection and gradient-norm terms with 1/L (beta_1 = b dt/L, beta_2 = b dt/L^2) is proved at term level (Nonlin/Scales.v) and at tableau level (h*N); the multi-channel and vorticity forms are checked on the real code by the witness "
                   "(general vs normalized vs difficulty steppers, rescalings, orders 0-4). Empty-tuple IndexError of reduce/extract is totalised in the model.",
              technique="Rocq proof (field identities, list induction) on AST-translated conversion functions + exact-rational symbol correspondence", design="§4 C13"),
